@@ -14,6 +14,10 @@ Concrete model (function for function, Rust `file:line` in each doc comment) of
   barter/src/engine/run.rs                   sync_run / async_run / sync_run_with_audit / async_run_with_audit
                                              over an abstract engine (`Runner`), with the audit transmitter a
                                              ChannelTxDroppable over an arbitrary `Tx`
+  barter/src/engine/mod.rs:188-199           `Engine::shutdown` (last statement of all four runners): one
+                                             `ExecutionRequest::Shutdown` per execution transmitter (`shutdownBroadcast`)
+  barter/src/system/builder.rs:369-410       the run closures of `SystemBuilder::init`: runner, then the moved-in
+                                             `audit_tx` is dropped (`runClosure`, `Op.dropTx`)
 followed by the abstract specifications (written from the doc comments / names, not from the code):
   `SpecSys`   a droppable transmitter + its receiver as an append-only log with a read cursor
   `MergeSpec` what a merged stream may have produced, as a predicate over (inputs, output)
@@ -144,6 +148,15 @@ def ddisable {ω α : Type} (tx : Tx ω α) (d : DState) (w : ω) : DState × ω
   | .disabled => (.disabled, w)
   | .active => (.disabled, tx.drop w)
 
+/-- Dropping the `ChannelTxDroppable` itself (drop glue of `ChannelState`, channel.rs:150-154): an
+`Active(tx)` drops the wrapped transmitter, a `Disabled` one holds nothing. This is how the audit stream
+ends in production: `audit_tx` is moved into the run closure of `SystemBuilder::init`
+(barter/src/system/builder.rs:377-383, 404-408) and dropped when the runner has returned. -/
+def ddrop {ω α : Type} (tx : Tx ω α) (d : DState) (w : ω) : ω :=
+  match d with
+  | .disabled => w
+  | .active => tx.drop w
+
 /-- A sequence of `ChannelTxDroppable::send` calls. -/
 def dsendAll {ω α : Type} (tx : Tx ω α) (d : DState) (w : ω) : List α → DState × ω
   | [] => (d, w)
@@ -167,6 +180,9 @@ inductive Op (α : Type) where
   | recv
   /-- the receiver is dropped -/
   | dropRx
+  /-- the `ChannelTxDroppable` itself is dropped, whatever its state (`ddrop`; the production end of the
+  audit stream: builder.rs:377-383, 404-408) -/
+  | dropTx
   deriving DecidableEq, Repr, Inhabited
 
 structure Sys (α : Type) where
@@ -176,14 +192,19 @@ structure Sys (α : Type) where
   got : List α
   /-- the receiver has seen the end of the stream (`Ready(None)`) -/
   sawEnd : Bool
+  /-- the `ChannelTxDroppable` has been dropped; `d` keeps the `ChannelState` it had at that moment
+  (`d = .active ∧ gone` = dropped while `Active`). In Rust the value is gone, so no `send` / `disable`
+  can follow; in histories such operations are no-ops. -/
+  gone : Bool
   deriving DecidableEq, Repr, Inhabited
 
 def Sys.init {α : Type} (d : DState) : Sys α :=
-  ⟨d, match d with | .active => Chan.new | .disabled => { (Chan.new : Chan α) with senders := 0 }, [], false⟩
+  ⟨d, match d with | .active => Chan.new | .disabled => { (Chan.new : Chan α) with senders := 0 }, [], false, false⟩
 
 def Sys.step {α : Type} (s : Sys α) : Op α → Sys α
-  | .dsend x => let r := dsend chanTx s.d s.c x; { s with d := r.1, c := r.2 }
-  | .disable => let r := ddisable (chanTx (α := α)) s.d s.c; { s with d := r.1, c := r.2 }
+  | .dsend x => if s.gone then s else let r := dsend chanTx s.d s.c x; { s with d := r.1, c := r.2 }
+  | .disable => if s.gone then s else let r := ddisable (chanTx (α := α)) s.d s.c; { s with d := r.1, c := r.2 }
+  | .dropTx => if s.gone then s else { s with gone := true, c := ddrop (chanTx (α := α)) s.d s.c }
   | .recv =>
     if s.c.rxAlive then
       match s.c.pollNext with
@@ -201,13 +222,15 @@ def offeredOf {α : Type} : List (Op α) → List α
   | .dsend x :: r => x :: offeredOf r
   | _ :: r => offeredOf r
 
-/-- the items handed over before the transmitter was first cut off (receiver dropped, or `disable`) -/
+/-- the items handed over before the transmitter was first cut off (receiver dropped, `disable`, or the
+transmitter itself dropped) -/
 def acceptedOf {α : Type} : List (Op α) → List α
   | [] => []
   | .dsend x :: r => x :: acceptedOf r
   | .recv :: r => acceptedOf r
   | .disable :: _ => []
   | .dropRx :: _ => []
+  | .dropTx :: _ => []
 
 /-! ### Abstract specification: an append-only log with a read cursor
 
@@ -262,6 +285,10 @@ def SpecSys.step {α : Type} (s : SpecSys α) : Op α → SpecSys α
        else { s with live := false, ch := { s.ch with senders := s.ch.senders - 1 } })
     else s
   | .disable =>
+    if s.live then { s with live := false, ch := { s.ch with senders := s.ch.senders - 1 } } else s
+  -- for the listener, a transmitter that is dropped and one that is switched off are the same thing:
+  -- it delivers nothing any more and its handle on the stream is released
+  | .dropTx =>
     if s.live then { s with live := false, ch := { s.ch with senders := s.ch.senders - 1 } } else s
   | .recv =>
     if s.ch.listening then
@@ -338,7 +365,9 @@ def Strm.map {σ α β : Type} (f : α → β) (s : Strm σ α) : Strm σ β := 
   | (st', .item x) => (st', .item (f x))
   | (st', .done) => (st', .done)
 
-/-- `futures::stream::once(std::future::ready(v))` (futures-util once.rs): yields `v`, then ends. -/
+/-- `futures::stream::once(std::future::ready(v))` (futures-util 0.3.34 `stream/once.rs:41-52`, read against the
+source: `future: Option<Fut>`; `Some(fut)` is polled — `std::future::Ready` is ready at once —, the slot is
+set to `None` and `Ready(Some(v))` returned; `None` gives `Ready(None)`): yields `v`, then ends. -/
 def once {α : Type} : Strm (Option α) α := fun
   | some v => (none, .item v)
   | none => (none, .done)
@@ -519,6 +548,10 @@ inductive Interleave {α : Type} : List α → List α → List α → Prop wher
   | left {x l r o} : Interleave l r o → Interleave (x :: l) r (x :: o)
   | right {x l r o} : Interleave l r o → Interleave l (x :: r) (x :: o)
 
+/-- The content is in `left_prefix`, `right_prefix` and `end_reason`. `interleaved` is kept for
+readability only: it holds for EVERY tagged list (`interleave_tags`; items travel tagged with the input
+they were sent on, `outOf` splits by tag), so it constrains nothing — "each input's order kept, nothing
+twice, nothing invented" is what the two prefix clauses say. -/
 structure MergeSpec {α : Type} (l r : List α) (lEnded rEnded : Bool) (out : List (Bool × α)) (ended : Bool) : Prop where
   left_prefix : outOf true out <+: l
   right_prefix : outOf false out <+: r
@@ -536,7 +569,10 @@ def allowedOutcomes {α : Type} (l r : List α) (lCloses rCloses : Bool) : List 
 /-! ## Engine run loops (barter/src/engine/run.rs) over an abstract engine -/
 
 /-- What the run loops need from an engine: `process_with_audit` (engine/mod.rs:81-90),
-`engine.audit(FeedEnded)` (audit/mod.rs:54-66) and `Terminal::is_terminal` of the record. -/
+`engine.audit(FeedEnded)` (audit/mod.rs:54-66) and `Terminal::is_terminal` of the record.
+The last statement of all four runners, `let _ = engine.shutdown();` (run.rs:60, 117, 166, 227), touches
+nothing of this: it only sends on the execution transmitters, whose channels are outside `ε`; it is
+modelled by `shutdownBroadcast` and placed after the run by `runClosure` / `plainClosure` below. -/
 structure Runner (ε ι κ : Type) where
   proc : ε → ι → ε × κ
   feedEnded : ε → ε × κ
@@ -616,5 +652,108 @@ def auditRunner : Runner Audit.EngA (Engine.Event × Audit.Ask) Audit.Tick where
   proc s ia := Audit.processWithAudit s ia.1 ia.2
   feedEnded s := (⟨s.eng, s.seq + 1⟩, .feedEnded s.seq)
   terminal := Audit.Tick.terminal
+
+/-! ## The end of a run: `engine.shutdown()`, then the audit transmitter is dropped -/
+
+/-- `ExecutionRequest` as an execution transmitter carries it (barter/src/execution/request.rs): an
+order request (open / cancel) or `Shutdown`. -/
+inductive XReq (ρ : Type) where
+  | order (r : ρ)
+  | shutdown
+  deriving DecidableEq, Repr, Inhabited
+
+/-- `<Engine as SyncShutdown>::shutdown` (barter/src/engine/mod.rs:188-199) over
+`MultiExchangeTxMap::iter` (execution_tx.rs:97-102: the `Some` entries, in index order):
+`for_each(|tx| { let _send_result = tx.send(ExecutionRequest::Shutdown); })` — one send per transmitter, the
+result is thrown away, so a failed send (receiver gone, or any other `Err`) does not stop the loop.
+`links[x]` is the world of exchange `x`'s transmitter, `none` where the map holds `None`. -/
+def shutdownBroadcast {χ ρ : Type} (xtx : Tx χ (XReq ρ)) : List (Option χ) → List (Option χ)
+  | [] => []
+  | none :: r => none :: shutdownBroadcast xtx r
+  | some w :: r => some (xtx.send w .shutdown).1 :: shutdownBroadcast xtx r
+
+/-- The world of one execution transmitter as the harness wires it (`vh::engine_util::TestTx`): the real
+`UnboundedTx` (`c` is its channel), or a transmitter that refuses every item with a recoverable error
+(what any other `Tx` may do; nothing reaches `c`). -/
+structure XW (ρ : Type) where
+  refusing : Bool
+  c : Chan (XReq ρ)
+  deriving DecidableEq, Repr, Inhabited
+
+def xwTx {ρ : Type} : Tx (XW ρ) (XReq ρ) :=
+  ⟨fun w x => if w.refusing then (w, false) else let r := w.c.send x; ({ w with c := r.1 }, r.2),
+   fun w => { w with c := w.c.dropTx }⟩
+
+/-- The execution channels of the C03 / C10 engine model after a run (Model/Engine.lean: one global log of
+delivered requests; exchange `x`'s channel content is the sub-list with `key.exchange = x`, in send order;
+only `healthy` links ever deliver): what the receivers hold when nobody has read them. -/
+def linkWorld (e : Engine.Eng) (x : Nat) : Option (XW Engine.Req) :=
+  match e.links[x]? with
+  | some .healthy => some ⟨false, ⟨(e.log.filter fun r => r.key.exchange == x).map .order, 1, true⟩⟩
+  | some .closed => some ⟨false, ⟨[], 1, false⟩⟩
+  | some .unhealthy => some ⟨true, ⟨[], 1, true⟩⟩
+  | some .missing => none
+  | none => none
+
+def linkWorlds (e : Engine.Eng) : List (Option (XW Engine.Req)) :=
+  (List.range e.links.length).map (linkWorld e)
+
+/-- Result of a run closure of `SystemBuilder::init`. `tx`: the `ChannelState` the audit transmitter had
+when it was dropped; `world`: the audit transmitter's world after the drop; `links`: the execution
+transmitters' worlds after `engine.shutdown()`. -/
+structure ClosureRun (ε κ ω χ : Type) where
+  engine : ε
+  shutdown : κ
+  tx : DState
+  world : ω
+  links : List (Option χ)
+
+/-- The closures `move || { let shutdown_audit = sync_run_with_audit(&mut feed_rx, &mut engine, &mut audit_tx);
+(engine, shutdown_audit) }` / `async move { async_run_with_audit(..).await .. }` (builder.rs:377-383,
+404-408) with `audit_tx = ChannelTxDroppable::new(..)` (builder.rs:371, 398): the runner — every record
+sent, the terminal one last (run.rs:109, 219), THEN `engine.shutdown()` (run.rs:117, 227) on the execution
+transmitters the engine holds after the loop (`linksOf`) — and when the closure returns, the moved-in
+`audit_tx` goes out of scope (`ddrop`). -/
+def runClosure {ε ι κ ω χ ρ : Type} (E : Runner ε ι κ) (tx : Tx ω κ) (env : Nat → ω → ω)
+    (xtx : Tx χ (XReq ρ)) (linksOf : ε → List (Option χ)) (e : ε) (w : ω) (feed : List ι) : ClosureRun ε κ ω χ :=
+  let a := runAudited E tx env 0 e .active w feed
+  ⟨a.engine, a.shutdown, a.tx, ddrop tx a.tx a.world, shutdownBroadcast xtx (linksOf a.engine)⟩
+
+/-- The closures around `sync_run` / `async_run` (builder.rs:387-392, 412-416; run.rs:60, 166): the loop,
+then `engine.shutdown()`. -/
+def plainClosure {ε ι κ χ ρ : Type} (E : Runner ε ι κ) (xtx : Tx χ (XReq ρ)) (linksOf : ε → List (Option χ))
+    (e : ε) (feed : List ι) : ε × κ × List (Option χ) :=
+  let r := runPlain E e feed
+  (r.1, r.2, shutdownBroadcast xtx (linksOf r.1))
+
+/-- What a run closure does to the outside, in program order: operations on the audit transmitter /
+receiver system, and the shutdown broadcast. -/
+inductive JOp (κ : Type) where
+  | sys (op : Op κ)
+  | shutdown
+  deriving DecidableEq, Repr, Inhabited
+
+/-- audit channel system and execution transmitters side by side -/
+structure JW (κ χ : Type) where
+  sys : Sys κ
+  links : List (Option χ)
+
+def JW.step {κ χ ρ : Type} (xtx : Tx χ (XReq ρ)) (w : JW κ χ) : JOp κ → JW κ χ
+  | .sys op => { w with sys := w.sys.step op }
+  | .shutdown => { w with links := shutdownBroadcast xtx w.links }
+
+def JW.run {κ χ ρ : Type} (xtx : Tx χ (XReq ρ)) (w : JW κ χ) (ops : List (JOp κ)) : JW κ χ :=
+  ops.foldl (JW.step xtx) w
+
+/-- the audit-side operations of a joint history -/
+def sysOps {κ : Type} : List (JOp κ) → List (Op κ)
+  | [] => []
+  | .sys op :: r => op :: sysOps r
+  | .shutdown :: r => sysOps r
+
+/-- The joint history of an audited run closure over a channel: the records are offered one by one with
+the consumer acting in between (`schedule`), then the shutdown broadcast, then the drop of `audit_tx`. -/
+def closureOps {κ : Type} (cons : Nat → List (Op κ)) (ticks : List κ) : List (JOp κ) :=
+  (schedule cons 0 ticks).map .sys ++ [.shutdown, .sys .dropTx]
 
 end BarterModel.Chan
